@@ -541,7 +541,7 @@ fn corrupt(rng: &mut Rng, d: &mut gen::DictSrc) -> String {
                 let mut cols: Vec<String> = lines[li].split(',').map(|c| c.to_string()).collect();
                 if cols.len() >= 4 {
                     let side = 1 + rng.below(2); // 1 = left id column, 2 = right id column
-                    let v = *rng.pick(&[nl, nr, nl.max(nr) - 1, nl.min(nr)]);
+                    let v = *rng.pick(&[nl, nr, nl.max(nr) - 1, nl.min(nr), 65535, 65534]);
                     cols[side] = v.to_string();
                     lines[li] = cols.join(",");
                 }
